@@ -1,6 +1,6 @@
 # p_compile engine: C04 C06 C07 C08 C09 C16
 PROPS = {
-    "C07": dict(fuzz_target="FuzzC07", fuzz_s=240, 
+    "C07": dict(fuzz_target="FuzzC07", fuzz_s=240, technique="property-based testing (rapid) with explicit oracle; the thorough tier adds a coverage-guided stage (Go native fuzzing driving the same check; failing inputs are saved as replay files)", 
         engine="p_compile", quick_checks=100000, thorough_checks=2500000, quick_shards=14, thorough_shards=16,
         rule="inputs: every repo .d2 file/txtar section/test-table literal, ~90 construct snippets (nil-prone value shapes, cyclic vars, globs of "
              "globs, import cycles of length 1-4 through different path spellings, diamond imports), then rapid: 1-4 file sets of grammar text with "
